@@ -4,7 +4,7 @@
      packet.unmarshal / packet.marshal(false)            (packet.go; CRC is an oracle input)
      chunkHeader.unmarshal / marshal / valueLength       (chunkheader.go)
      every chunk_*.go unmarshal/marshal reachable from packet.unmarshal / packet.marshal,
-     chunkHeartbeatAck.unmarshal (not reachable from packet.unmarshal, modelled for the harness),
+     (chunkHeartbeatAck.unmarshal is also called directly by the harness),
      paramHeader.unmarshal/marshal, buildParam and the eleven param_*.go,
      buildErrorCause, errorCauseHeader and the four error_cause_*.go.
 
@@ -18,10 +18,12 @@
    - loops that are not structurally bounded take fuel; exhaustion is [CFuel].
    - loops keep the absolute offsets of the Go code.
    - the quirks of the Go code are kept: what slice each chunk decoder is given, which chunk types
-     packet.unmarshal knows, header fields that marshal does not overwrite (flags, raw), the
-     promoted chunkHeader.marshal of chunkHeartbeat, ABORT/ERROR scanning the rest of the packet,
-     the INIT parameter loop guard `remaining > 4`, missing padding after the last parameter,
-     uint16 wrap of length fields. *)
+     packet.unmarshal knows, header fields that marshal does not overwrite (flags, raw),
+     chunkHeartbeat.marshal falling back to the bare header when there is no parameter, missing
+     padding after the last parameter, uint16 wrap of length fields.
+   History: the model followed /repo through the fixes ff34a9b (ABORT/ERROR parse their own value),
+   c4c4893 (HEARTBEAT-ACK case in packet.unmarshal), 46c3107 (chunkHeartbeat.marshal),
+   eefb4f1 (INIT parameter loop guard `remaining >= 4`). *)
 From Coq Require Import ZArith Bool List.
 From Sctp Require Import Gen.
 Import ListNotations.
@@ -120,6 +122,7 @@ Definition e_InvalidSCTPChunk : Z := 57.
 Definition e_ProtocolViolationUnmarshal : Z := 58.
 Definition e_InitChunkParseParamTypeFailed : Z := 59.
 Definition e_ParamPacketTooShort : Z := 60.
+Definition e_HeartbeatMarshalNoInfo : Z := 61.
 
 (* hmacAlgorithm constants of param_requested_hmac_algorithm.go (not exported by the translator) *)
 Definition cd_hmacSHA128 : Z := 1.
@@ -127,7 +130,7 @@ Definition cd_hmacSHA256 : Z := 3.
 
 (* ------------------------------------------------------------------ byte-slice primitives *)
 
-Definition cd_len (l : list Z) : Z := Z.of_nat (length l).
+Definition cd_len {A : Type} (l : list A) : Z := Z.of_nat (length l).
 Definition cd_drop (n : Z) (l : list Z) : list Z := skipn (Z.to_nat n) l.
 Definition cd_take (n : Z) (l : list Z) : list Z := firstn (Z.to_nat n) l.
 
@@ -208,8 +211,8 @@ Inductive cd_chunk : Type :=
 (* chunkInit (ack=false) / chunkInitAck (ack=true); unrec = unrecognizedParams as (typ, raw) *)
 | CkInit (ack : bool) (flags tag arwnd nout nin itsn : Z) (params : list cd_param)
          (unrec : list (Z * list Z))
-(* chunkHeartbeat: the chunk interface reaches the promoted chunkHeader.marshal, so the header
-   fields are what gets encoded *)
+(* chunkHeartbeat: marshal encodes the bare header (typ, flags, raw as they are) when there is no
+   parameter, so the header fields are part of the value *)
 | CkHeartbeat (htyp hflags : Z) (hraw : list Z) (params : list cd_param)
 | CkHeartbeatAck (flags : Z) (params : list cd_param)
 | CkAbort (causes : list cd_cause)
@@ -433,9 +436,9 @@ Fixpoint cd_enc_causes (cs : list cd_cause) : cres (list Z) :=
   end.
 
 (* chunkAbort.unmarshal / chunkError.unmarshal loop:
-     offset := chunkHeaderSize
-     for len(raw)-offset >= 4 { e := buildErrorCause(raw[offset:]) ; offset += e.length() }
-   [raw] is the slice handed to the chunk decoder, i.e. the whole rest of the packet. *)
+     value := a.raw ; offset := 0
+     for len(value)-offset >= 4 { e := buildErrorCause(value[offset:]) ; offset += e.length() }
+   [raw] here is the chunk's own value. *)
 Fixpoint cd_dec_causes (fuel : nat) (raw : list Z) (n offset : Z) : cres (list cd_cause) :=
   match fuel with
   | O => CFuel
@@ -516,14 +519,14 @@ Definition cd_dec_sack (raw : list Z) : cres (cd_chunk * Z) :=
 
 (* chunkInitCommon.unmarshal parameter loop:
      offset := 16; remaining := len(raw) - offset
-     for remaining > 0 { if remaining > 4 { ... } else { break } } *)
+     for remaining > 0 { if remaining >= 4 { ... } else { break } } *)
 Fixpoint cd_init_params (fuel : nat) (raw : list Z) (offset remaining : Z)
   : cres (list cd_param * list (Z * list Z)) :=
   match fuel with
   | O => CFuel
   | S f =>
       if remaining >? 0 then
-        if remaining >? c_initOptionalVarHeaderLength then
+        if remaining >=? c_initOptionalVarHeaderLength then
           sub <- cd_from raw offset ;;
           h <- cd_wrap e_InitChunkParseParamTypeFailed (cd_dec_phdr sub) ;;
           let adv := ph_len h + getPadding (ph_len h) in
@@ -591,7 +594,7 @@ Definition cd_dec_heartbeat (raw : list Z) : cres (cd_chunk * Z) :=
                            e_ParseParamTypeFailed e_HeartbeatChunkUnmarshal ;;
     COk (CkHeartbeat (h_typ h) (h_flags h) (h_raw h) ps, cd_len (h_raw h)).
 
-(* chunkHeartbeatAck.unmarshal (packet.unmarshal has no case for it) *)
+(* chunkHeartbeatAck.unmarshal *)
 Definition cd_dec_heartbeat_ack (raw : list Z) : cres (cd_chunk * Z) :=
   h <- cd_dec_hdr raw ;;
   if negb (h_typ h =? c_ctHeartbeatAck) then CErr e_ChunkTypeNotHeartbeatAck
@@ -600,15 +603,16 @@ Definition cd_dec_heartbeat_ack (raw : list Z) : cres (cd_chunk * Z) :=
                            e_HeartbeatAckParams e_HeartbeatAckMarshalParam ;;
     COk (CkHeartbeatAck (h_flags h) ps, cd_len (h_raw h)).
 
-(* chunkAbort.unmarshal / chunkError.unmarshal: causes are scanned in [raw], not in the chunk value *)
+(* chunkAbort.unmarshal / chunkError.unmarshal: causes are scanned in the chunk's own value *)
 Definition cd_dec_abort (is_error : bool) (raw : list Z) : cres (cd_chunk * Z) :=
   h <- cd_dec_hdr raw ;;
   if negb (h_typ h =? (if is_error then c_ctError else c_ctAbort)) then
     CErr (if is_error then e_ChunkTypeNotCtError else e_ChunkTypeNotAbort)
   else
-    let n := cd_len raw in
+    let v := h_raw h in
+    let n := cd_len v in
     cs <- cd_wrap (if is_error then e_BuildErrorChunkFailed else e_BuildAbortChunkFailed)
-                  (cd_dec_causes (S (Z.to_nat n)) raw n c_chunkHeaderSize) ;;
+                  (cd_dec_causes (S (Z.to_nat n)) v n 0) ;;
     COk (if is_error then CkError cs else CkAbort cs, cd_len (h_raw h)).
 
 (* chunkShutdown.unmarshal *)
@@ -726,6 +730,7 @@ Definition cd_dec_chunk (raw : list Z) : cres (cd_chunk * Z) :=
   else if t =? c_ctCookieEcho then cd_dec_plain c_ctCookieEcho e_ChunkTypeNotCookieEcho CkCookieEcho raw
   else if t =? c_ctCookieAck then cd_dec_plain c_ctCookieAck e_ChunkTypeNotCookieAck CkCookieAck raw
   else if t =? c_ctHeartbeat then cd_dec_heartbeat raw
+  else if t =? c_ctHeartbeatAck then cd_dec_heartbeat_ack raw
   else if t =? c_ctPayloadData then cd_dec_data raw
   else if t =? c_ctIData then cd_dec_data raw
   else if t =? c_ctSack then cd_dec_sack raw
@@ -798,6 +803,13 @@ Definition cd_enc_params_padded (ps : list cd_param) : list Z :=
      | p :: tl => let pp := cd_enc_param p in pp ++ cd_zeros (getPadding (cd_len pp)) ++ go tl
      end) ps.
 
+(* chunkReconfig.marshal: parameter A, padding and parameter B only when B is present *)
+Definition cd_reconfig_value (pa : cd_param) (pb : option cd_param) : list Z :=
+  match pb with
+  | Some b => cd_enc_param pa ++ cd_zeros (getPadding (cd_len (cd_enc_param pa))) ++ cd_enc_param b
+  | None => cd_enc_param pa
+  end.
+
 Definition cd_enc_chunk (c : cd_chunk) : cres (list Z) :=
   match c with
   | CkData idata un bg en imm tsn sid ssn mid fsn ppi ud =>
@@ -809,14 +821,20 @@ Definition cd_enc_chunk (c : cd_chunk) : cres (list Z) :=
                (cd_e32 tsn ++ cd_e16 sid ++ cd_e16 ssn ++ cd_e32 ppi ++ ud))
   | CkSack fl cum arwnd gaps dups =>
       COk (cd_enc_hdr c_ctSack fl
-             (cd_e32 cum ++ cd_e32 arwnd ++ cd_e16 (wrap16 (cd_len (map fst gaps))) ++ cd_e16 (wrap16 (cd_len dups))
+             (cd_e32 cum ++ cd_e32 arwnd ++ cd_e16 (wrap16 (cd_len gaps)) ++ cd_e16 (wrap16 (cd_len dups))
               ++ flat_map (fun g => cd_e16 (fst g) ++ cd_e16 (snd g)) gaps ++ flat_map cd_e32 dups))
   | CkInit ack fl tag arwnd nout nin itsn ps _ =>
       COk (cd_enc_hdr (if ack then c_ctInitAck else c_ctInit) fl
              (cd_e32 tag ++ cd_e32 arwnd ++ cd_e16 nout ++ cd_e16 nin ++ cd_e32 itsn ++ cd_enc_params_padded ps))
-  | CkHeartbeat htyp hfl hraw _ =>
-      (* promoted chunkHeader.marshal: the params are not consulted *)
-      COk (cd_enc_hdr htyp hfl hraw)
+  | CkHeartbeat htyp hfl hraw ps =>
+      (* chunkHeartbeat.marshal: no parameter -> chunkHeader.marshal of the header as it is;
+         otherwise Marshal(): exactly one Heartbeat Info, typ = HEARTBEAT, flags = 0 *)
+      match ps with
+      | [] => COk (cd_enc_hdr htyp hfl hraw)
+      | [p] => if cd_is_hbinfo p then COk (cd_enc_hdr c_ctHeartbeat 0 (cd_enc_param p))
+               else CErr e_HeartbeatParam
+      | _ => CErr e_HeartbeatMarshalNoInfo
+      end
   | CkHeartbeatAck fl ps =>
       match ps with
       | [p] => if cd_is_hbinfo p then COk (cd_enc_hdr c_ctHeartbeatAck fl (cd_enc_param p))
@@ -830,19 +848,13 @@ Definition cd_enc_chunk (c : cd_chunk) : cres (list Z) :=
   | CkShutdownComplete fl raw => COk (cd_enc_hdr c_ctShutdownComplete fl raw)
   | CkCookieEcho fl ck => COk (cd_enc_hdr c_ctCookieEcho fl ck)
   | CkCookieAck fl raw => COk (cd_enc_hdr c_ctCookieAck fl raw)
-  | CkReconfig fl pa pb =>
-      let a := cd_enc_param pa in
-      COk (cd_enc_hdr c_ctReconfig fl
-             (match pb with
-              | Some b => a ++ cd_zeros (getPadding (cd_len a)) ++ cd_enc_param b
-              | None => a
-              end))
+  | CkReconfig fl pa pb => COk (cd_enc_hdr c_ctReconfig fl (cd_reconfig_value pa pb))
   | CkForwardTSN fl ntsn ss =>
       COk (cd_enc_hdr c_ctForwardTSN fl
              (cd_e32 ntsn ++ flat_map (fun s => cd_e16 (fst s) ++ cd_e16 (snd s)) ss))
   | CkIForwardTSN fl ntsn ss =>
       let ns := cd_ifwd_normalize ss in
-      if cd_len (map fst ns) >? c_maxIForwardTSNStreams then CErr e_IForwardTSNTooManyStreams
+      if cd_len ns >? c_maxIForwardTSNStreams then CErr e_IForwardTSNTooManyStreams
       else
         COk (cd_enc_hdr c_ctIForwardTSN fl
                (cd_e32 ntsn ++
@@ -872,6 +884,23 @@ Definition cd_bytes (l : list Z) : bool := forallb cd_is_byte l.
 Definition cd_u16 (v : Z) : bool := (0 <=? v) && (v <? 65536).
 Definition cd_u32 (v : Z) : bool := (0 <=? v) && (v <? 4294967296).
 
+Definition cd_is_hmac (a : Z) : bool := (a =? cd_hmacSHA128) || (a =? cd_hmacSHA256).
+
+(* parameters whose round trip is exact *)
+Definition cd_wf_param (p : cd_param) : bool :=
+  match p with
+  | PmHeartbeatInfo v | PmStateCookie v | PmRandom v | PmChunkList v | PmSupportedExt v => cd_len v <? 65532
+  | PmOutReset a b c sids =>
+      cd_u32 a && cd_u32 b && cd_u32 c && forallb cd_u16 sids && (2 * cd_len sids <? 65520)
+  | PmReconfigResp a b => cd_u32 a && cd_u32 b
+  | PmEcn | PmFwdTsnSupp => true
+  | PmZeroChecksum e => cd_u32 e
+  | PmReqHmac al => forallb cd_is_hmac al && (2 * cd_len al <? 65532)
+  end.
+
+Definition cd_wf_ifwd_entry (s : Z * bool * Z) : bool :=
+  match s with (sid, u, mid) => cd_u16 sid && cd_u32 mid end.
+
 (* what a chunk decodes to after having been encoded *)
 Definition cd_canon_chunk (c : cd_chunk) : cd_chunk :=
   match c with
@@ -879,6 +908,8 @@ Definition cd_canon_chunk (c : cd_chunk) : cd_chunk :=
       CkData true un bg en imm tsn sid (wrap16 mid) mid (if bg then 0 else fsn) (if bg then ppi else 0) ud
   | CkData false un bg en imm tsn sid ssn mid fsn ppi ud =>
       CkData false un bg en imm tsn sid ssn 0 0 ppi ud
+  | CkInit ack fl tag arwnd nout nin itsn ps _ => CkInit ack fl tag arwnd nout nin itsn ps []
+  | CkHeartbeat _ _ _ [p] => CkHeartbeat c_ctHeartbeat 0 (cd_enc_param p) [p]
   | CkIForwardTSN fl ntsn ss => CkIForwardTSN fl ntsn (cd_ifwd_normalize ss)
   | c => c
   end.
@@ -886,7 +917,27 @@ Definition cd_canon_chunk (c : cd_chunk) : cd_chunk :=
 Definition cd_canon_packet (p : cd_packet) : cd_packet :=
   mkPacket (pk_sport p) (pk_dport p) (pk_vtag p) (map cd_canon_chunk (pk_chunks p)).
 
-(* chunk kinds for which the round trip is a theorem (CodecProofs.v) together with their field ranges *)
+(* error causes whose round trip is exact: the code must be the one buildErrorCause dispatches on *)
+Definition cd_wf_cause (c : cd_cause) : bool :=
+  match c with
+  | EcInvalidMandatory code raw => (code =? c_invalidMandatoryParameter) && (cd_len raw <? 65532)
+  | EcUnrecognizedChunk raw => cd_len raw <? 65532
+  | EcProtocolViolation code info => (code =? c_protocolViolation) && (cd_len info <? 65532)
+  | EcUserAbort r => cd_len r <? 65532
+  | EcOther code raw =>
+      cd_u16 code && negb ((code =? c_invalidMandatoryParameter) || (code =? c_unrecognizedChunkType)
+                           || (code =? c_protocolViolation) || (code =? c_userInitiatedAbort))
+      && (cd_len raw <? 65532)
+  end.
+
+Definition cd_causes_len (cs : list cd_cause) : Z :=
+  fold_right (fun c acc =>
+    4 + acc + match c with
+              | EcInvalidMandatory _ r | EcUnrecognizedChunk r | EcProtocolViolation _ r | EcUserAbort r
+              | EcOther _ r => cd_len r
+              end) 0 cs.
+
+(* the field ranges under which the round trip is a theorem (CodecProofs.v); every chunk kind is covered *)
 Definition cd_wf_chunk (c : cd_chunk) : bool :=
   match c with
   | CkData idata un bg en imm tsn sid ssn mid fsn ppi ud =>
@@ -895,16 +946,37 @@ Definition cd_wf_chunk (c : cd_chunk) : bool :=
   | CkSack fl cum arwnd gaps dups =>
       cd_is_byte fl && cd_u32 cum && cd_u32 arwnd
       && forallb (fun g => cd_u16 (fst g) && cd_u16 (snd g)) gaps && forallb cd_u32 dups
-      && (4 * cd_len (map fst gaps) + 4 * cd_len dups <? 65536 - 4 - 12)
+      && (4 * cd_len gaps + 4 * cd_len dups <? 65536 - 4 - 12)
+  | CkInit ack fl tag arwnd nout nin itsn ps us =>
+      (* flags must be 0 (the decoder rejects anything else) *)
+      (fl =? 0) && cd_u32 tag && cd_u32 arwnd && cd_u16 nout && cd_u16 nin && cd_u32 itsn
+      && forallb cd_wf_param ps && (cd_len (cd_enc_params_padded ps) <? 65536 - 4 - 16)
+  | CkHeartbeat t fl raw ps =>
+      (* one Heartbeat Info (any header state), or the empty HEARTBEAT the decoder accepts *)
+      match ps with
+      | [PmHeartbeatInfo info] => cd_len info <? 65528
+      | [] => (t =? c_ctHeartbeat) && (cd_len raw =? 0)
+      | _ => false
+      end
+  | CkHeartbeatAck fl ps =>
+      match ps with
+      | [PmHeartbeatInfo info] => cd_len info <? 65528
+      | _ => false
+      end
+  | CkAbort cs | CkError cs => forallb cd_wf_cause cs && (cd_causes_len cs <? 65532)
   | CkShutdown fl cum => cd_is_byte fl && cd_u32 cum
   | CkShutdownAck fl raw => cd_is_byte fl && cd_bytes raw && (cd_len raw <? 65532)
   | CkShutdownComplete fl raw => cd_is_byte fl && cd_bytes raw && (cd_len raw <? 65532)
   | CkCookieAck fl raw => cd_is_byte fl && cd_bytes raw && (cd_len raw <? 65532)
   | CkCookieEcho fl ck => cd_is_byte fl && cd_bytes ck && (cd_len ck <? 65532)
+  | CkReconfig fl pa pb =>
+      cd_wf_param pa && match pb with Some b => cd_wf_param b | None => true end
+      && (cd_len (cd_reconfig_value pa pb) <? 65532)
   | CkForwardTSN fl ntsn ss =>
       cd_is_byte fl && cd_u32 ntsn && forallb (fun s => cd_u16 (fst s) && cd_u16 (snd s)) ss
-      && (4 * cd_len (map fst ss) <? 65536 - 4 - 4)
-  | _ => false
+      && (4 * cd_len ss <? 65536 - 4 - 4)
+  | CkIForwardTSN fl ntsn ss =>
+      cd_u32 ntsn && forallb cd_wf_ifwd_entry ss && (cd_len ss <=? c_maxIForwardTSNStreams)
   end.
 
 Definition cd_wf_packet (p : cd_packet) : bool :=
